@@ -83,5 +83,8 @@ m = {"version": 1, "setup_cmd": "bin/setup",
      "checks": [C[p] for p in props if p in C],
      "notes": "See DESIGN.md. known_findings.json lists genuine defects (all repaired so far by 'fix:' commits in /repo).",
      "not_applicable": [{"property_id": p, "reason": "check not built yet (work in progress; see DESIGN.md section 12)"} for p in props if p not in C]}
+for c in m["checks"]:
+    if c["property_id"] == "C06":
+        c["replay_cmd_template"] = "harness/target/release/vcalls --replay {path}"
 json.dump(m, open(os.path.join(ROOT, 'MANIFEST.json'), 'w'), indent=1)
 print("checks:", len(m["checks"]), "not yet:", [x["property_id"] for x in m["not_applicable"]])
